@@ -31,6 +31,8 @@ ASSUMPTIONS = [
     "family count does not depend on floating-point rounding of averaged edge lengths; the curved-size cell derives the "
     "count from a cell size on the chopped block's own four edges (one of them a shared arc), which is independent of "
     "insertion order and numbering except on the measure-zero set where length/size is a whole number",
+    "merged cells: a corner's identity is (lattice node, set of slave patches on the block's faces that contain it) - "
+    "the library's documented duplication rule for face merging; families are computed from those identities",
     "history cell: chops of an operation are edited with Operation.unchop / chop between assemblies; Mesh.clear() and "
     "Mesh.backport() are the documented ways to re-assemble",
 ]
@@ -101,9 +103,9 @@ def livelock_shape(case) -> bool:
 
 
 @st.composite
-def wellposed_case(draw, graded):
+def wellposed_case(draw, graded, merge: str = "no"):
     mode = draw(st.sampled_from(["wellposed", "redundant"])) if not graded else "wellposed"
-    case = draw(lt.chopped_lattice(mode, graded=graded, min_cells=2))
+    case = draw(lt.chopped_lattice(mode, graded=graded, min_cells=2, merge=merge))
     case["picks"] = draw(_picks)
     case["rewrite"] = draw(st.integers(0, 2)) == 0
     return case
@@ -229,6 +231,8 @@ def check_complete(case, ctx: Ctx) -> None:
         ctx.label("chop-not-on-first-inserted")
     ctx.label(f"schedulable-sets>={min(multi, 3)}")
     ctx.label(*lt.contact_labels(case))
+    if case.get("merges"):
+        ctx.label(f"merged-pairs={len(case['merges'])}")
 
 
 def _has_size_chop(case) -> bool:
@@ -249,8 +253,8 @@ def _has_size_chop(case) -> bool:
 
 
 @st.composite
-def order_case(draw):
-    case = draw(lt.chopped_lattice("wellposed", min_cells=2))
+def order_case(draw, merge: str = "no"):
+    case = draw(lt.chopped_lattice("wellposed", min_cells=2, merge=merge))
     # replace some count chops by graded chops that state their count
     for ch in case["chops"]:
         if not isinstance(ch["args"], list) and draw(st.integers(0, 2)) == 0:
@@ -275,6 +279,10 @@ def order_case(draw):
             "orient": [draw(st.integers(0, 23)) for _ in range(k)],
             "picks": draw(_picks),
         })
+        if case.get("merges"):
+            # patch names are labels: another choice of (distinct) names must not change anything either
+            nm = draw(st.lists(st.sampled_from(lt.PATCH_NAMES), min_size=2 * len(case["merges"]), max_size=2 * len(case["merges"]), unique=True))
+            variants[-1]["names"] = [nm[2 * i:2 * i + 2] for i in range(len(case["merges"]))]
     case["picks"] = draw(_picks)
     case["variants"] = variants
     return case
@@ -304,6 +312,8 @@ def check_order(case, ctx: Ctx) -> None:
         vc["cells"] = [case["cells"][i] for i in v["perm"]]
         vc["orient"] = list(v["orient"])
         vc["picks"] = v["picks"]
+        if v.get("names") and case.get("merges"):
+            vc["merges"] = [dict(mg, names=list(nm)) for mg, nm in zip(case["merges"], v["names"])]
         o, p, c = counts_by_cell(vc)
         if o == "fuel":
             raise Violation("non-termination", "a re-ordered / re-numbered variant ran out of fuel", variant=v, **facts)
@@ -327,6 +337,8 @@ def check_order(case, ctx: Ctx) -> None:
             raise Violation("counts-depend-on-order", f"variant {i}: counts per (cell, direction) differ: {diff}", **facts)
     ctx.nt(len(case["cells"]) >= 3 or any(v["orient"] != case["orient"] for v in case["variants"]))
     ctx.label(*lt.contact_labels(case))
+    if case.get("merges"):
+        ctx.label(f"merged-pairs={len(case['merges'])}")
 
 
 # --------------------------------------------------------------------------------------------------
@@ -335,7 +347,7 @@ def check_order(case, ctx: Ctx) -> None:
 
 @st.composite
 def under_case(draw):
-    case = draw(lt.chopped_lattice("under", min_cells=1))
+    case = draw(lt.chopped_lattice("under", min_cells=1, merge="maybe"))
     case["picks"] = draw(_picks)
     case["preexisting"] = draw(st.booleans())
     return case
@@ -754,6 +766,11 @@ CELLS = [
          fixed_cases=_LIVELOCK),
     Cell("C02/complete/graded", wellposed_case(True), check_complete, 120, 6000,
          "well-posed graded chops (sizes, ratios, preserve) + drawn schedule"),
+    Cell("C02/complete/merged", wellposed_case(False, merge="yes").filter(lambda c: bool(c.get("merges"))), check_complete, 200, 6000,
+         "as complete/count with 1-2 merged (master / slave) patch pairs on lattice planes: corners on a slave patch are "
+         "separate vertices, so families end at the interface - every block direction still gets its family's count"),
+    Cell("C02/order-independence/merged", order_case(merge="yes").filter(lambda c: bool(c.get("merges"))), check_order, 120, 4000,
+         "as order-independence with 1-2 merged patch pairs; the variants also re-draw the (distinct) patch names"),
     Cell("C02/order-independence", order_case(), check_order, 100, 4000,
          "same lattice model under 4 (insertion order, numbering, schedule) triples: same outcome, same counts per (cell, direction)"),
     Cell("C02/order-independence/two-sources", order_two_sources_case(), check_order, 80, 3000,
